@@ -16,6 +16,7 @@ import DrummerVerif.Lemmas.Cadence
 import DrummerVerif.Lemmas.Renew
 import DrummerVerif.Lemmas.Rounds
 import DrummerVerif.Lemmas.C01F
+import DrummerVerif.Lemmas.C01A
 /-!
 # C01 — self-healing: the control loop restores every shard after faults stop (PARTIAL: safety invariants and per-round progress lemmas; the convergence bound is decided by the correspondence run, see DESIGN.md)
 
@@ -587,6 +588,78 @@ theorem crashed_nodehost_is_healed_again :
                               Loop.report (Loop.execute l2 a) a lost = Outcome.ok (l4, k4) →
                                 Loop.Settled l4 ∧ Loop.AllRunning l4 :=
   @_root_.Drummer.crashed_nodehost_is_healed_again
+
+/-! ### the replacement path, first leg
+
+A member whose NodeHost is gone for good cannot be restored (no recent record with its log). If its shard keeps a majority
+and nobody is waiting, the round is exactly one ADD request (`round_for_a_lost_member_is_one_add`, justified by
+`RepairJust`: fenced by the view's version, sent to a healthy member's NodeHost, naming a live NodeHost that does not host
+the shard and a non-zero id no member of the view uses); an ADD dragonboat admits extends the group's history by exactly
+the membership with the new member appended (`add_request_extends_the_group`); and end to end - round, scheduling, pick-up,
+execution - the group has the new member (`replacement_member_is_added`). Admissibility against what only dragonboat
+remembers (ids of removed members) is a hypothesis. Kernel-evaluated instance: `Props/WitnessReplace.added`. The later legs
+(the new member is started by a join request, the lost member is removed) are not chained here: the states in between
+have a membership change in flight, outside `Settled`. -/
+
+theorem round_for_a_lost_member_is_one_add :
+    ∀ (d : DB) (cx : Ctx), CtxOnce d cx → ∀ (draws rest : List Nat) (rs : List Request),
+      maintain cx draws = SRes.ok rs rest → (∀ c ∈ d.image.shards, Shard.IdsOK c) → d.image.toKill = [] →
+        ∀ (c : Shard), c ∈ d.image.shards →
+          ∀ (m : Replica), Shard.failedReplicas c d.tick = [m] → Shard.toStart c d.tick = [] →
+            Shard.available c d.tick = true →
+              (∀ c' ∈ d.image.shards, c' ≠ c → Shard.failedReplicas c' d.tick = [] ∧ Shard.toStart c' d.tick = []) →
+                ∀ (dd : ShardDef), dd ∈ d.shards → dd.shardId = c.shardId →
+                  (∀ dx ∈ d.shards, dx.shardId = c.shardId → c.replicas.length ≤ dx.members.length) →
+                    (∀ spec, hostFind? d.hosts m.address = some spec →
+                      (HostSpec.available spec d.tick && HostSpec.hasLog spec m.shardId m.replicaId) = false) →
+                      ∃ cr r, cr ∈ cx.repairs ∧ cr.shard = c ∧ rs = [r] ∧ r.type = ReqType.add ∧ RepairJust cx cr r :=
+  @_root_.Drummer.round_is_one_add
+
+theorem add_request_extends_the_group :
+    ∀ (l : Loop) (h : Host) (r : Request) (g : Group) (rep : SimReplica) (id : Nat) (na : Addr),
+      Loop.group? l r.shardId = some g → r.members = [id] → r.type = ReqType.add → r.addressList = [na] →
+        Host.run? h r.shardId = some rep → (Group.cur g).members.any (·.1 == rep.id) = true →
+          r.confChangeId = (Group.cur g).ver → Loop.quorumRunning l r.shardId = true →
+            id ∉ (Group.cur g).removed → (Group.cur g).members.any (·.1 == id) = false →
+              (Group.cur g).members.any (·.2 == na) = false →
+                Loop.execChange l h r =
+                  (({ l with nextVer := l.nextVer + 1 } : Loop).setGroup
+                      { g with hist := g.hist ++ [Membership.added (Group.cur g) (l.nextVer + 1) id na] }).setHost
+                    ((h.setRun { rep with applied := ((g.hist ++ [Membership.added (Group.cur g) (l.nextVer + 1) id na]).length : Int) - 1 }).dataPut
+                      r.shardId rep.id (((g.hist ++ [Membership.added (Group.cur g) (l.nextVer + 1) id na]).length : Int) - 1)) :=
+  @_root_.Drummer.execChange_add
+
+theorem replacement_member_is_added :
+    ∀ (l : Loop), Loop.Settled l →
+      ∀ (cx : Ctx), CtxOnce l.db cx → ∀ (draws rest : List Nat) (rs : List Request), maintain cx draws = SRes.ok rs rest →
+        ∀ (db' : DB) (n : Nat), DB.applyRequests l.db rs = Outcome.ok (db', n) →
+          (∀ c ∈ l.db.image.shards, Shard.IdsOK c) → ∀ (c : Shard), c ∈ l.db.image.shards →
+            ∀ (m : Replica), Shard.failedReplicas c l.db.tick = [m] → Shard.toStart c l.db.tick = [] →
+              Shard.available c l.db.tick = true →
+                (∀ c' ∈ l.db.image.shards, c' ≠ c → Shard.failedReplicas c' l.db.tick = [] ∧ Shard.toStart c' l.db.tick = []) →
+                  ∀ (dd : ShardDef), dd ∈ l.db.shards → dd.shardId = c.shardId →
+                    (∀ dx ∈ l.db.shards, dx.shardId = c.shardId → c.replicas.length ≤ dx.members.length) →
+                      (∀ spec, hostFind? l.db.hosts m.address = some spec →
+                        (HostSpec.available spec l.db.tick && HostSpec.hasLog spec m.shardId m.replicaId) = false) →
+                        ∀ (g : Group), Loop.group? l c.shardId = some g →
+                          (∀ x ∈ c.replicas, (x.replicaId, x.address) ∈ (Group.cur g).members) →
+                            (∀ x ∈ Shard.okReplicas c l.db.tick, ∃ hx rep, Loop.host? l x.address = some hx ∧
+                              Host.run? hx c.shardId = some rep ∧ rep.id = x.replicaId) →
+                              Loop.quorumRunning l c.shardId = true →
+                                (∀ r ∈ rs, ∀ id na, r.members = [id] → r.addressList = [na] →
+                                  id ∉ (Group.cur g).removed ∧ ∀ p ∈ (Group.cur g).members, p.1 ≠ id ∧ p.2 ≠ na) →
+    ∃ r via id spec, rs = [r] ∧ r.type = ReqType.add ∧ r.members = [id] ∧ r.addressList = [spec.address] ∧
+      via ∈ Shard.okReplicas c l.db.tick ∧ r.raftAddress = via.address ∧
+      spec ∈ cx.hosts ∧ liveFilter l.db.tick nodeHostTTL spec = true ∧ basicFilter c.shardId spec = true ∧
+      id ≠ 0 ∧ (∀ x ∈ c.replicas, x.replicaId ≠ id) ∧
+      ∀ (l2 : Loop) (k : Nat),
+        Loop.report { db := db', hosts := l.hosts, groups := l.groups, nextVer := l.nextVer, regions := l.regions }
+            via.address false = Outcome.ok (l2, k) →
+          Loop.group? (Loop.execute l2 via.address) c.shardId =
+              some { g with hist := g.hist ++ [Membership.added (Group.cur g) (l.nextVer + 1) id spec.address] } ∧
+            (∀ s, s ≠ c.shardId → Loop.group? (Loop.execute l2 via.address) s = Loop.group? l s) ∧
+            (Loop.execute l2 via.address).db.requests = [] ∧ (∀ x ∈ (Loop.execute l2 via.address).hosts, x.queue = []) :=
+  @_root_.Drummer.replacement_member_is_added
 
 /-- where "Drummer holds the NodeHost's log record" comes from: the first report of a NodeHost after it came back (and every
 third one) announces its persisted logs; afterwards the replicated state has a record under the NodeHost's address,
